@@ -7,27 +7,50 @@
 (***************************************************************************)
 EXTENDS Bytes, TLC
 
-ToySha(cx, x) == [i \in 1..32 |-> (Len(x) * 13 + i * 7 + (IF Len(x) > 0 THEN x[1] + x[Len(x)] ELSE 0) + cx) % 256]
-ToyRip(cx, x) == [i \in 1..20 |-> (Len(x) * 5 + i * 11 + (IF Len(x) > 0 THEN x[1] * 3 + x[Len(x)] ELSE 0) + cx) % 256]
+\* The hash OUTPUT is what an address encodes, so the model enumerates hash outputs: the context cx is a
+\* chosen prefix (over Alphabet, up to MaxPre bytes - every leading-zero pattern, 0xff runs, mixed) that
+\* the toy digests start with; the remaining bytes depend on the input (so different scripts differ).
+CONSTANTS MaxPre, Alphabet
+
+Fill(x, n, m) == [i \in 1..n |-> (Len(x) * m + i * 7 + (IF Len(x) > 0 THEN x[1] + x[Len(x)] ELSE 0)) % 256]
+ToySha(cx, x) == Take(cx \o Fill(x, 32, 13), 32)
+ToyRip(cx, x) == Take(cx \o Fill(x, 20, 5), 20)
 ToyH256(cx, x) == [i \in 1..32 |-> (Len(x) * 3 + i * 17 + (IF Len(x) > 0 THEN x[1] + 2 * x[Len(x)] ELSE 0)) % 256]
 
 A == INSTANCE Address WITH Sha <- ToySha, Rip <- ToyRip, H256 <- ToyH256
 
-VARIABLES kind, net, key
+VARIABLES kind, net, key, pre
 
-vars == <<kind, net, key>>
+vars == <<kind, net, key, pre>>
 
 Keys == { <<2>> \o [i \in 1..32 |-> i], <<3>> \o [i \in 1..32 |-> 255 - i], <<2>> \o [i \in 1..32 |-> 0],
           <<4>> \o [i \in 1..64 |-> (i * 3) % 256] }        \* the last one: an uncompressed key (P2PKH only)
 
-Init == kind \in A!Kinds /\ net \in {"main", "test"} /\ key \in Keys /\ (Len(key) = 65 => kind = "p2pkh")
-Next == UNCHANGED vars
+Init == kind = "p2pkh" /\ net = "main" /\ key = <<2>> \o [i \in 1..32 |-> i] /\ pre = <<>>
+
+Grow == /\ Len(pre) < MaxPre
+        /\ \E b \in Alphabet : pre' = Append(pre, b)
+        /\ UNCHANGED <<kind, net, key>>
+
+Pick == /\ kind' \in A!Kinds /\ net' \in {"main", "test"} /\ key' \in Keys
+        /\ (Len(key') = 65 => kind' = "p2pkh")
+        /\ UNCHANGED pre
+
+Next == Grow \/ Pick
 
 DecodesToRightScript ==
-  A!Classify(7, A!Addr(7, kind, key, net)) = A!Expected(7, kind, key, net)
+  A!Classify(pre, A!Addr(pre, kind, key, net)) = A!Expected(pre, kind, key, net)
 
 NetworkTagIsOwn ==
-  A!Classify(7, A!Addr(7, kind, key, net))[2] = net
+  A!Classify(pre, A!Addr(pre, kind, key, net))[2] = net
+
+\* Base58Check addresses: one leading '1' per leading zero byte of the 21-byte payload (mainnet P2PKH, version 0,
+\* followed by a HASH160 that starts with zero bytes, is the only way to get more than one)
+LeadingOnes ==
+  LET a == A!Addr(pre, kind, key, net)
+      e == A!Expected(pre, kind, key, net)
+  IN kind \in {"p2pkh", "p2sh_p2wpkh", "p2sh_p2wsh"} =>
+       CountLeading(a, 49) = (IF e[1] = "pkh" /\ net = "main" THEN 1 + CountLeading(e[3], 0) ELSE 0)
 
 \* the tags that separate (class, network)
 KindsAreSeparated ==
@@ -36,7 +59,7 @@ KindsAreSeparated ==
 
 \* template shapes
 TemplateShapes ==
-  LET h20 == ToyRip(0, key)  h32 == ToySha(0, key)
+  LET h20 == ToyRip(pre, key)  h32 == ToySha(pre, key)
   IN /\ Len(A!ScriptP2PKH(h20)) = 25 /\ Len(A!ScriptP2SH(h20)) = 23
      /\ Len(A!ScriptP2WPKH(h20)) = 22 /\ Len(A!ScriptP2WSH(h32)) = 34
      /\ (Len(key) = 33 => Len(A!Witness1of1(key)) = 37)
